@@ -790,15 +790,16 @@ fn write_block(
         let mut hlit_field = tx_ll.len() as u32 - 257;
         let mut hdist_field = tx_d.len() as u32 - 1;
         if poison == Spec::Hlit287 {
-            hlit_field = rng.range(30, 31) as u32;
+            hlit_field = rng.pick(&[30u32, 31, 31]);
             tx_ll.resize(hlit_field as usize + 257, 0);
             if rng.chance(1, 2) {
                 let l = tx_ll.len();
                 tx_ll[l - 1] = 0;
             }
         }
-        if poison == Spec::Hdist31 {
-            hdist_field = rng.range(30, 31) as u32;
+        if poison == Spec::Hdist31 || (poison == Spec::Hlit287 && rng.chance(1, 2)) {
+            // (with Hlit287: both size fields beyond their alphabets at once, often both all-ones)
+            hdist_field = if poison == Spec::Hlit287 { rng.pick(&[31u32, 31, 30]) } else { rng.range(30, 31) as u32 };
             tx_d.resize(hdist_field as usize + 1, 0);
         }
         let mut seq = tx_ll.clone();
